@@ -30,7 +30,8 @@ RULE = (
     'the results; then 1-6 '
     '(thorough 1-14) chained operations, each drawn from the state of the '
     'file it is applied to: copy; sliceDimensions over a non-empty subset of '
-    'TSTEP/LAY/ROW/COL with ints in [-n,n-1] or non-empty slices (step '
+    'TSTEP/LAY/ROW/COL with ints in [-n,n-1] or non-empty slices (bounds '
+    'None / negative / beyond the axis, step '
     'None/1/2/full reverse), one slice in five on gridded files a zipped '
     'cell selection (ROW and COL as paired index lists of 1-4 entries, '
     'newdims default POINTS / PERIM / CELLS, optional TSTEP/LAY windows); '
@@ -41,7 +42,8 @@ RULE = (
     'the last two lower the variable count while a TFLAG exists; '
     'applyAlongDimensions with '
     'mean/sum/min/max/std over any non-empty subset of TSTEP/LAY/ROW/COL/'
-    'PERIM or a shape-deterministic callable on LAY; eval of an assignment '
+    'PERIM or a shape-deterministic callable on LAY (plain, or the '
+    'dictionary form {func1d: f, k: value} keeping the first/last k layers); eval of an assignment '
     'to a fresh name (copyall False/True); mask by a scalar predicate; stack '
     'along TSTEP (half) or ROW/COL with itself / a copy / a window of itself '
     '/ 2-3 tiles cut with sliceDimensions and re-assembled in order (single '
@@ -96,7 +98,7 @@ ASSUMPTIONS = [
     'an operation that raises is not a result (C01 judges completion)',
     'audit_meta is used only as a second opinion; it raises KeyError on '
     'boundary files that carry NROWS/NCOLS (counted as audit-raised)']
-BUDGET = {'quick': dict(examples=3600, max_s=240, shrink_cap=250),
+BUDGET = {'quick': dict(examples=3000, max_s=240, shrink_cap=250),
           'thorough': dict(examples=30000, max_s=3000, shrink_cap=400)}
 
 REDUCERS = ('mean', 'sum', 'min', 'max', 'std')
@@ -348,6 +350,8 @@ class Machine(object):
         self.steps.append(step)
         f = self.cur
         self.r.label('op:' + op)
+        if op == 'apply' and isinstance(a['dims'].get('LAY'), list):
+            self.r.label('apply:LAY' + a['dims']['LAY'][0])
         if op == 'rename':
             self.r.label('rename:' + a.get('kind', 'fresh'))
         if op == 'slice' and step_class(step) == 'slice:zip':
@@ -420,10 +424,27 @@ def _slice(f, a):
     return f.sliceDimensions(**kw)
 
 
+def _headk(x, k=1):
+    return x[:k]
+
+
+def _tailk(x, k=1):
+    return x[-k:]
+
+
+OPTFUNCS = {'headk': _headk, 'tailk': _tailk}
+
+
 def _apply(f, a):
     kw = {}
     for d, fn in a['dims'].items():
-        kw[d] = CALLABLES[fn[1]] if isinstance(fn, list) else fn
+        if not isinstance(fn, list):
+            kw[d] = fn
+        elif fn[0] == 'dict':
+            # dictionary form: {'func1d': f, option: value}
+            kw[d] = {'func1d': OPTFUNCS[fn[1]], 'k': int(fn[2])}
+        else:
+            kw[d] = CALLABLES[fn[1]]
     return f.applyAlongDimensions(**kw)
 
 
@@ -510,9 +531,8 @@ def draw_selector(draw, n):
     a = draw(st.integers(0, n - 1))
     b = draw(st.integers(a + 1, n))
     step = draw(st.sampled_from([None, None, 1, 2]))
-    form = draw(st.integers(0, 3))
-    lo = None if (a == 0 and form & 1) else (a - n if form == 2 else a)
-    hi = None if (b == n and form & 2) else b
+    # start/stop anywhere a Python slice accepts, incl. beyond the axis
+    lo, hi = I.spell_slice(draw, a, b, n)
     return ['slice', [lo, hi, step]]
 
 
@@ -607,7 +627,12 @@ def draw_step(draw, s, avoid):
         for d in chosen:
             if d == 'LAY' and draw(st.integers(0, 2)) == 0:
                 names = sorted(CALLABLES)
-                out[d] = ['call', draw(st.sampled_from(names))]
+                if draw(st.integers(0, 2)) == 0:
+                    # dictionary form with a length-changing option
+                    out[d] = ['dict', draw(st.sampled_from(sorted(OPTFUNCS))),
+                              draw(st.integers(1, max(1, dims['LAY'])))]
+                else:
+                    out[d] = ['call', draw(st.sampled_from(names))]
             else:
                 out[d] = draw(st.sampled_from(REDUCERS))
         return ['apply', {'dims': out}]
